@@ -73,7 +73,9 @@ CrcCuts == {32, 36, 40, 48, 52, 56, 64, 0}          \* word boundaries around th
            \cup (IF Full THEN {512, 1024, 4096} ELSE {})   \* chunk sizes of an implementation that streams the image
 SpCrc  == [what : {"crc"}, cut : CrcCuts, cls : {"zero", "ones"}]
 SpMan  == [what : {"mancrc"}, cut : {40, 0}, cls : {"zero", "ones"}]
-SpCtr  == [what : {"ctr"}, cut : {0}, cls : {"zero", "ones", "lo32ones", "lo64ones"}]
+(* "drawn": the counter start is not given by the user but drawn by the tool itself (class constructor without ctr_init_vector): the ROM *)
+(* decrypts with the value it finds in the image, whatever it is - the value class the executor sees is "other"                       *)
+SpCtr  == [what : {"ctr"}, cut : {0}, cls : {"zero", "ones", "lo32ones", "lo64ones", "drawn"}]
 Specials(kind) == {NoSp} \cup (CASE kind \in {"crc_xip", "crc_ram"} -> SpCrc [] kind = "v21_crc" -> SpMan [] kind = "v1_enc" -> SpCtr [] OTHER -> {})
 
 UdShape(sh) == sh.isk # 0 /\ sh.app = 300 /\ sh.tzType = 0 /\ sh.nKeys = 1 /\ ~sh.dig
@@ -237,7 +239,7 @@ Decrypt == s.st = "Dec" /\
       e == [rd |-> TRUE, ok |-> TRUE, key |-> (IF shape.ks THEN "userKey" ELSE "AES-ECB(masterKey, 01 0^15 02 0^15)"),
             ivAt |-> img.cbEnd + EncIvtLen, ivLen |-> IvLen,
             segs |-> << <<img.cbEnd, img.cbEnd + EncIvtLen>>, <<EncIvtLen, IvtLen>>, <<IvtLen + s.shift, img.cbAt>>, <<img.cbEnd + EncIvtLen + IvLen, img.sigAt>> >>,
-            appLen |-> img.w28, tzLen |-> tz, plainLen |-> img.w28 + tz, ivClass |-> (IF sp.what = "ctr" THEN sp.cls ELSE "other")]
+            appLen |-> img.w28, tzLen |-> tz, plainLen |-> img.w28 + tz, ivClass |-> (IF sp.what = "ctr" /\ sp.cls # "drawn" THEN sp.cls ELSE "other")]
   IN Step(DecOK(rom, s, e), DecNx(rom, s, e))
 CertBlockV21 == s.st = "Cert" /\ rom.cb = 21 /\
   LET e == [rd |-> TRUE, magicOk |-> TRUE, verOk |-> TRUE, at |-> img.cbAt, size |-> img.cbEnd - img.cbAt] IN Step(Cb21OK(rom, s, e), Cb21Nx(rom, s, e))
